@@ -41,6 +41,9 @@ structure DState where
   c16 : DriverC16.St := {}
   c13 : DriverC13.St := {}
   c12 : DriverC12.St := {}
+  /-- C07: the stored shard of the case was altered behind the API (`corrupt_entry`): reads are no longer predicted, only
+  compared between the two forms -/
+  c07taint : Bool := false
 
 /-- new state, acceptable outcomes (`any` accepts everything), optional note -/
 def dispatch (st : DState) (l : Line) : Option (DState × List String × Option String) :=
@@ -81,7 +84,13 @@ def dispatch (st : DState) (l : Line) : Option (DState × List String × Option 
     match l.verbs[1]? with
     | some "hcfg" => some ({ st with c13 := {} }, ["ok"], none)
     | some "hop" => (DriverC13.handleOp st.c13 { l with verbs := ["c13", "op"] ++ l.verbs.drop 2 }).map (fun (s, a) => ({ st with c13 := s }, a, none))
-    | _ => (DriverC01.handle st.c01 l).map (fun (s, a, n) => ({ st with c01 := s }, a, n))
+    | _ =>
+      -- a stored value altered behind the API: from here to the next `cfg` the model predicts nothing; what binds is that
+      -- both forms answer alike (the harness prints `MISMATCH …` otherwise)
+      if l.verbs[2]? == some "corrupt_entry" then some ({ st with c07taint := true }, [l.outcome], none)
+      else if st.c07taint && l.verbs[1]? != some "cfg" then
+        some (st, [if l.outcome.startsWith "MISMATCH" then "the same outcome or class of error through both forms" else l.outcome], none)
+      else (DriverC01.handle st.c01 l).map (fun (s, a, n) => ({ st with c01 := s, c07taint := false }, a, n))
   | some "c12" =>
     if l.verbs[1]? == some "zinflate" then (DriverC12Deflate.handle l).map (fun a => (st, a, none))
     else (DriverC12.handle st.c12 l).map (fun (s, a) => ({ st with c12 := s }, a, none))
